@@ -415,8 +415,8 @@ func (c *Context) Rem(d, x, y *Decimal) (Condition, error) {
 		return c.goError(InvalidOperation)
 	}
 	if y.Form == Infinite {
-		d.Set(x)
-		return 0, nil
+		// The remainder is x itself, rounded to the context like any result.
+		return c.goError(c.round(d, x))
 	}
 
 	var res Condition
